@@ -9,6 +9,7 @@ import (
 	"strconv"
 	"strings"
 
+	"github.com/dop251/goja/parser"
 	"github.com/dop251/goja/unistring"
 )
 
@@ -90,6 +91,12 @@ func (s asciiString) utf16() []uint16 {
 	return u
 }
 
+// trimWhitespace strips ECMAScript WhiteSpace and LineTerminator code points (strings.TrimSpace also strips
+// U+0085, which is not white space in ECMAScript).
+func trimWhitespace(s string) string {
+	return strings.Trim(s, parser.WhitespaceChars)
+}
+
 // ss must be trimmed
 func stringToInt(ss string) (int64, error) {
 	if ss == "" {
@@ -164,7 +171,7 @@ func (s asciiString) _toFloat(trimmed string) (float64, error) {
 }
 
 func (s asciiString) ToInteger() int64 {
-	ss := strings.TrimSpace(string(s))
+	ss := trimWhitespace(string(s))
 	if ss == "" {
 		return 0
 	}
@@ -197,7 +204,7 @@ func (s asciiString) String() string {
 }
 
 func (s asciiString) ToFloat() float64 {
-	ss := strings.TrimSpace(string(s))
+	ss := trimWhitespace(string(s))
 	if ss == "" {
 		return 0
 	}
@@ -223,7 +230,7 @@ func (s asciiString) ToBoolean() bool {
 }
 
 func (s asciiString) ToNumber() Value {
-	ss := strings.TrimSpace(string(s))
+	ss := trimWhitespace(string(s))
 	if ss == "" {
 		return intToValue(0)
 	}
@@ -259,7 +266,7 @@ func (s asciiString) Equals(other Value) bool {
 	}
 
 	if o, ok := other.(valueInt); ok {
-		if o1, e := s._toInt(strings.TrimSpace(string(s))); e == nil {
+		if o1, e := s._toInt(trimWhitespace(string(s))); e == nil {
 			return o1 == int64(o)
 		}
 		return false
@@ -270,7 +277,7 @@ func (s asciiString) Equals(other Value) bool {
 	}
 
 	if o, ok := other.(valueBool); ok {
-		if o1, e := s._toFloat(strings.TrimSpace(string(s))); e == nil {
+		if o1, e := s._toFloat(trimWhitespace(string(s))); e == nil {
 			return o1 == o.ToFloat()
 		}
 		return false
@@ -387,7 +394,7 @@ func (s asciiString) toUpper() String {
 }
 
 func (s asciiString) toTrimmedUTF8() string {
-	return strings.TrimSpace(string(s))
+	return trimWhitespace(string(s))
 }
 
 func (s asciiString) string() unistring.String {
